@@ -23,7 +23,9 @@ MANIFEST = {
                   "C01_explained: the model's list of reasons for not reproducing an input (why_box) is complete -- no reason, then the "
                   "Go encoders' bytes ARE the input; C01_fixpoint (GENERAL, no hypothesis on the reserved bytes): for every slice "
                   "accepted completely with an exact tree t the Go encoders' bytes enc have the input's length = Size(), decode again "
-                  "to norm_box t (= t up to the captured reserved bytes) and encode to enc again; C01_file_boxtree: the same for a "
+                  "to norm_box t (= t up to the captured reserved bytes) and encode to enc again; C01_fixpoint_api: the same on the two "
+                  "API paths (Box.Encode with its per-box capacities and Box.EncodeSW both succeed, with the same bytes, on the "
+                  "decoded and on the re-decoded tree); C01_file_boxtree: the same for a "
                   "file in box-tree mode; they rest on C01_header_local / C01_leaf_stable: every decoder of the "
                   "dispatch tables is local (never looks behind the bytes it consumes) and print-then-parse holds for every leaf "
                   "kind (decoder applied to the encoder's bytes returns the same value, for all values the decoder can return); "
